@@ -21,9 +21,13 @@ import sys
 import time
 import traceback
 
+os.environ.setdefault('OMP_NUM_THREADS', '1')
+os.environ.setdefault('MKL_NUM_THREADS', '1')
 VERIF = os.path.dirname(os.path.dirname(os.path.abspath(__file__)))
 LEAN = os.path.join(VERIF, 'lean')
-REPO = '/repo'
+# The registered checks always run against /repo.  VERIF_REPO exists only so that a scratch copy of the
+# repository (e.g. one carrying a seeded breaking change) can be checked without touching /repo.
+REPO = os.environ.get('VERIF_REPO', '/repo')
 ALLOWED_AXIOMS = {'propext', 'Classical.choice', 'Quot.sound'}
 FORBIDDEN = re.compile(
     r'\bsorry\b|\badmit\b|^\s*axiom\s|native_decide|bv_decide|implemented_by|\bunsafe\s|maxHeartbeats\s+0')
@@ -41,6 +45,8 @@ def ensure_repo_import():
     """Import torch_frame from /repo's working tree and assert that is what we got."""
     if REPO not in sys.path:
         sys.path.insert(0, REPO)
+    import torch
+    torch.set_num_threads(1)
     import torch_frame  # noqa
     path = os.path.realpath(torch_frame.__file__)
     if not path.startswith(os.path.realpath(REPO) + os.sep):
